@@ -17,7 +17,7 @@
   * `parse_tokens_image`.
 -/
 import Lace.Proofs.TextTokens
-import Lace.Props.C01
+import Lace.Props.C01Core
 
 namespace Lace.C01
 open Lace.Asm Lace.Spec Lace.C04
